@@ -265,6 +265,12 @@ type parseCfg struct {
 	TChain   int       `json:"tchain"`
 	Custom   customOps `json:"custom"`
 	ViaPlug  bool      `json:"viaplugin"` // install interceptors through Builder.Install
+	// Inst, when non-empty, replaces SChain/EChain/TChain: the installation history, one letter per
+	// call: s statement, e pass-through expression, r re-entrant expression, t token interceptor;
+	// an upper-case letter installs through Builder.Install (a plugin).
+	Inst []string `json:"inst"`
+	// Builds: how many parsers are built from the builder; the LAST one is run (0 = 1)
+	Builds int `json:"builds"`
 }
 
 type event struct {
@@ -285,6 +291,7 @@ var ctxNames = map[parser.ContextType]string{parser.GlobalContext: "global", par
 var customSpell = map[string]byte{"DYN0": '^', "DYN1": '@', "DYN2": '#', "DYN3": '~', "DYN4": '?'}
 
 type built struct {
+	muted bool                  // interceptors of throwaway lexers/parsers do not log
 	names map[token.Type]string // dynamic token type -> the name it was registered under
 	lb    *lexer.Builder
 	pb    *parser.Builder
@@ -339,14 +346,25 @@ func buildParserBuilder(cfg parseCfg, posIndex map[[2]int]int) *built {
 			return next()
 		})
 	}
-	for k := 1; k <= cfg.TChain; k++ {
-		id := k
-		lb.UseTokenInterceptor(func(l *lexer.Lexer, next func() token.Token) token.Token {
+	tokInterceptor := func(id int) lexer.Interceptor {
+		return func(l *lexer.Lexer, next func() token.Token) token.Token {
+			if b.muted {
+				return next()
+			}
 			*b.tlog = append(*b.tlog, event{Kind: "tok", ID: id, Ph: "enter", L: l.Line, C: l.Column, Ch: int(l.CurrentChar)})
 			t := next()
-			*b.tlog = append(*b.tlog, event{Kind: "tok", ID: id, Ph: "exit", L: t.Start.Line, C: t.Start.Column, Ch: int(t.Type)})
+			notEOF := 1
+			if t.Type == token.EOF {
+				notEOF = 0
+			}
+			*b.tlog = append(*b.tlog, event{Kind: "tok", ID: id, Ph: "exit", L: t.Start.Line, C: t.Start.Column, Ch: notEOF})
 			return t
-		})
+		}
+	}
+	if len(cfg.Inst) == 0 {
+		for k := 1; k <= cfg.TChain; k++ {
+			lb.UseTokenInterceptor(tokInterceptor(k))
+		}
 	}
 	pb := parser.NewBuilder(lb)
 	idx := func(p *parser.Parser) int {
@@ -359,35 +377,78 @@ func buildParserBuilder(cfg parseCfg, posIndex map[[2]int]int) *built {
 			f(pb)
 		}
 	}
-	for k, kind := range cfg.SChain {
-		id := k + 1
-		_ = kind
-		install(func(pb *parser.Builder) {
-			pb.UseStatementInterceptor(func(p *parser.Parser, next func() ast.Statement) ast.Statement {
-				*b.plog = append(*b.plog, event{Kind: "stmt", ID: id, Ph: "enter", Tok: idx(p), Ctx: ctxNames[p.CurrentContext()], InFn: p.IsInFunction()})
-				r := next()
-				*b.plog = append(*b.plog, event{Kind: "stmt", ID: id, Ph: "exit", Tok: idx(p), Ctx: ctxNames[p.CurrentContext()], InFn: p.IsInFunction()})
-				return r
-			})
-		})
+	stmtInterceptor := func(id int) parser.Interceptor[ast.Statement] {
+		return func(p *parser.Parser, next func() ast.Statement) ast.Statement {
+			if b.muted {
+				return next()
+			}
+			*b.plog = append(*b.plog, event{Kind: "stmt", ID: id, Ph: "enter", Tok: idx(p), Ctx: ctxNames[p.CurrentContext()], InFn: p.IsInFunction()})
+			r := next()
+			*b.plog = append(*b.plog, event{Kind: "stmt", ID: id, Ph: "exit", Tok: idx(p), Ctx: ctxNames[p.CurrentContext()], InFn: p.IsInFunction()})
+			return r
+		}
 	}
-	for k, kind := range cfg.EChain {
-		id := k + 1
-		reent := kind == "reent"
-		install(func(pb *parser.Builder) {
-			pb.UseExpressionInterceptor(func(p *parser.Parser, next func() ast.Expression) ast.Expression {
-				*b.plog = append(*b.plog, event{Kind: "expr", ID: id, Ph: "enter", Tok: idx(p), Ctx: ctxNames[p.CurrentContext()], InFn: p.IsInFunction()})
-				var r ast.Expression
-				if reent {
-					left := p.ParsePrefixExpression()
-					r = p.ParseRemainingExpression(left)
-				} else {
-					r = next()
-				}
-				*b.plog = append(*b.plog, event{Kind: "expr", ID: id, Ph: "exit", Tok: idx(p), Ctx: ctxNames[p.CurrentContext()], InFn: p.IsInFunction()})
-				return r
-			})
-		})
+	exprInterceptor := func(id int, reent bool) parser.Interceptor[ast.Expression] {
+		return func(p *parser.Parser, next func() ast.Expression) ast.Expression {
+			if b.muted && !reent {
+				return next()
+			}
+			if b.muted {
+				return p.ParseRemainingExpression(p.ParsePrefixExpression())
+			}
+			*b.plog = append(*b.plog, event{Kind: "expr", ID: id, Ph: "enter", Tok: idx(p), Ctx: ctxNames[p.CurrentContext()], InFn: p.IsInFunction()})
+			var r ast.Expression
+			if reent {
+				left := p.ParsePrefixExpression()
+				r = p.ParseRemainingExpression(left)
+			} else {
+				r = next()
+			}
+			*b.plog = append(*b.plog, event{Kind: "expr", ID: id, Ph: "exit", Tok: idx(p), Ctx: ctxNames[p.CurrentContext()], InFn: p.IsInFunction()})
+			return r
+		}
+	}
+	if len(cfg.Inst) == 0 {
+		for k := range cfg.SChain {
+			id := k + 1
+			install(func(pb *parser.Builder) { pb.UseStatementInterceptor(stmtInterceptor(id)) })
+		}
+		for k, kind := range cfg.EChain {
+			id, reent := k+1, kind == "reent"
+			install(func(pb *parser.Builder) { pb.UseExpressionInterceptor(exprInterceptor(id, reent)) })
+		}
+	} else {
+		ns, ne, nt := 0, 0, 0
+		for _, letter := range cfg.Inst {
+			var f func(pb *parser.Builder)
+			switch strings.ToLower(letter) {
+			case "s":
+				ns++
+				id := ns
+				f = func(pb *parser.Builder) { pb.UseStatementInterceptor(stmtInterceptor(id)) }
+			case "e", "r":
+				ne++
+				id, reent := ne, strings.ToLower(letter) == "r"
+				f = func(pb *parser.Builder) { pb.UseExpressionInterceptor(exprInterceptor(id, reent)) }
+			case "t":
+				nt++
+				id := nt
+				f = func(pb *parser.Builder) { pb.LexerBuilder.UseTokenInterceptor(tokInterceptor(id)) }
+			case "b":
+				// a Build() in the middle of the installation history: builders may be used at any time
+				b.muted = true
+				_, _ = pb.Build("a").ParseProgram()
+				b.muted = false
+				continue
+			default:
+				continue
+			}
+			if letter != strings.ToLower(letter) {
+				pb.Install(f)
+			} else {
+				f(pb)
+			}
+		}
 	}
 	for _, n := range cfg.Custom.Prefix {
 		name := n
@@ -441,6 +502,23 @@ type ptok struct {
 	SC  int    `json:"sc"`
 	EL  int    `json:"el"`
 	EC  int    `json:"ec"`
+	Ch0 int    `json:"ch0"` // byte of the source at the token's start position (0 at the end)
+}
+
+// byteAt returns the byte of src at (line, col) (0-based, byte columns, LF line breaks), 0 beyond.
+func byteAt(src string, line, col int) int {
+	off := 0
+	for l := 0; l < line; l++ {
+		k := strings.IndexByte(src[off:], '\n')
+		if k < 0 {
+			return 0
+		}
+		off += k + 1
+	}
+	if off+col < len(src) && col >= 0 {
+		return int(src[off+col])
+	}
+	return 0
 }
 
 type perr struct {
@@ -501,7 +579,7 @@ func lexForParser(lb *lexer.Builder, src string, names ...map[token.Type]string)
 			ok = err == nil
 		}
 		out = append(out, ptok{Ty: tokName(t.Type), Lit: safeStr(t.Literal), NL: t.AfterNewline, OK: ok,
-			SL: t.Start.Line, SC: t.Start.Column, EL: t.End.Line, EC: t.End.Column})
+			SL: t.Start.Line, SC: t.Start.Column, EL: t.End.Line, EC: t.End.Column, Ch0: byteAt(src, t.Start.Line, t.Start.Column)})
 		if t.Type == token.EOF || len(out) > limit {
 			return out
 		}
@@ -588,6 +666,7 @@ type parseObs struct {
 	InFn    bool              `json:"infn"`
 	Reg     map[string]string `json:"reg"`
 	Compile map[string]string `json:"compile,omitempty"`
+	Out     string            `json:"out"` // compact compilation when no error was reported ("" otherwise)
 	prog    *ast.Program
 }
 
@@ -595,6 +674,7 @@ func doParse(src string, cfg parseCfg) *parseObs {
 	posIndex := map[[2]int]int{}
 	b := buildParserBuilder(cfg, posIndex)
 	// token list as seen by the parser (own lexer instance, logging interceptors muted afterwards)
+	b.muted = true
 	toks := lexForParser(b.lb, src, b.names)
 	*b.tlog = (*b.tlog)[:0]
 	for i, t := range toks {
@@ -603,6 +683,10 @@ func doParse(src string, cfg parseCfg) *parseObs {
 			posIndex[k] = i + 1
 		}
 	}
+	for k := 1; k < cfg.Builds; k++ {
+		_ = b.pb.Build(src)
+	}
+	b.muted = false
 	p := b.pb.Build(src)
 	prog, err := p.ParseProgram()
 	obs := &parseObs{Toks: toks, Tree: projProgram(prog), Err: err != nil, Errors: []perr{}, PLog: *b.plog,
@@ -628,11 +712,16 @@ func init() {
 			Src     []int    `json:"src"`
 			Cfg     parseCfg `json:"cfg"`
 			Compile bool     `json:"compile"`
+			Out     bool     `json:"out"`
 		}
 		if err := json.Unmarshal(raw, &c); err != nil {
 			return nil, err
 		}
 		obs := doParse(bytesOf(c.Src), c.Cfg)
+		if c.Out && len(obs.Errors) == 0 && !obs.Err {
+			code, _, perr := safeCompile("compact", obs.prog)
+			obs.Out = code + perr
+		}
 		if c.Compile && len(obs.Errors) == 0 && !obs.Err {
 			obs.Compile = map[string]string{}
 			for _, name := range allCompileCfgs {
